@@ -5,5 +5,6 @@ META = {
             'of the family; generated sources must compile. The back-ends implement naming, optionals, groups and skip-to through different runtime paths, so '
             'divergence hides in grammar shapes x inputs that the solver enumerates as input classes.',
     'note': 'The model is the reference side (C01 ties it to the documented semantics). Trusted: CrossHair/z3 models validated per path natively. Known findings '
-            'F20 (names bound to value-less expressions) and F21 (rule names if/if_ collide) identified by signature.',
+            'F20 (names bound to value-less expressions) and F21 (rule names if/if_ collide) identified by signature. The regex-literal and reused-parser-object obligations range over '
+            'solver-chosen selectors (code point, text) with the generator and the generated module run natively per value.',
 }
